@@ -266,7 +266,9 @@ def r1_index(ctx):
     # final call
     ret = ret_expr(f)
     okc = isinstance(ret, ast.Call) and isinstance(ret.func, ast.Name) and ret.func.id == "function" \
-        and len(ret.args) == 2 and isinstance(ret.args[0], ast.Starred) and ast.unparse(ret.args[1]) == "box"
+        and len(ret.args) >= 1 and isinstance(ret.args[0], ast.Starred) \
+        and (len(ret.args) == 2 and not ret.keywords and ast.unparse(ret.args[1]) == "box"
+             or len(ret.args) == 1 and [(k.arg, ast.unparse(k.value)) for k in ret.keywords] == [("box", "box")])   # (every wrapped function names it `box`)
     ctx.ob("R1.call", GEO, f.name, ast.unparse(ret), okc,
            "the gathered coordinates are passed in column order followed by the box", f.lineno)
     # box selection as a whole: explicit box wins, the structure's box is the fallback, no box when not periodic
@@ -795,7 +797,7 @@ def r4_box(ctx):
             if isinstance(num, ast.Call) and call_name(num) == "np.dot" and isinstance(den, ast.BinOp) and isinstance(den.op, ast.Mult):
                 vs = [a.id for a in num.args]
                 ls = [ln.get(x.id) for x in (den.left, den.right) if isinstance(x, ast.Name)]
-                ok = {vec.get(v) for v in vs} == rows and sorted(ls) == sorted(vs)
+                ok = None not in ls and None not in vs and {vec.get(v) for v in vs} == rows and sorted(ls) == sorted(vs)
         ctx.ob("R4.unitcell-angles", BOX, uv.name, con, ok,
                f"{ang} is the angle between box vectors {sorted(rows)}: arccos(u.v / (|u||v|))", uv.lineno)
     ret = ret_expr(uv)
